@@ -161,8 +161,20 @@ func c20Main(rc *RunCtx) {
 		if cancel != nil {
 			defer cancel()
 		}
+		respAtReturn := qCtx.R()
 		// let both workers finish before judging (they run on their own deadline)
 		simrt.Sleep(0, 12*time.Second)
+		if later := qCtx.R(); later != respAtReturn {
+			whoLater := "<none>"
+			if later != nil {
+				for _, rr := range later.Answer {
+					if t, ok := rr.(*dns.TXT); ok && len(t.Txt) == 1 && len(t.Txt[0]) == 6 {
+						whoLater = t.Txt[0][5:]
+					}
+				}
+			}
+			rc.Fail("response_changed_after_return", "Exec returned (from=%q err=%v) and later the caller's query context holds the answer from=%q: a worker wrote to the caller's context after the call ended", cl.who, cl.err, whoLater)
+		}
 		c20Check(rc, c, cl, T)
 	}
 }
